@@ -361,12 +361,17 @@ theorem keepsParentJSON_eq_promoted (hdr : Field) (anon : Bool) : keepsParentJSO
       · cases anon <;> simp [hd, hh]
       · cases anon <;> simp [hd, hh]
 
-/-- every field well-formed (`FieldWF`); struct-typed fields without `required` and without a default, and not an
-embedded struct whose fields the unmarshaller promotes (class `embedded-json-path`) -/
+/-- the path of the JSON object in which the fields of the struct-typed field `hdr` are looked up: the enclosing object
+itself for an embedded struct whose fields the unmarshaller promotes (`/repo` 1242bf1), else the object under its name -/
+def kidP (P : List Bytes) (hdr : Field) (anon : Bool) : List Bytes := if promoted hdr anon then P else P ++ [specName hdr]
+
+/-- every field well-formed (`FieldWF`); struct-typed fields without `required` and without a default.  Embedded structs
+whose fields the unmarshaller promotes are INCLUDED since `/repo` 1242bf1 (the first version of the refinement theorem had
+to exclude them: class `embedded-json-path`) -/
 def ForestWF : Forest → Prop
   | .nil => True
   | .leaf f rest => FieldWF f ∧ ForestWF rest
-  | .strct hdr anon kids rest => FieldWF hdr ∧ HdrPlain hdr ∧ promoted hdr anon = false ∧ ForestWF kids ∧ ForestWF rest
+  | .strct hdr _ kids rest => FieldWF hdr ∧ HdrPlain hdr ∧ ForestWF kids ∧ ForestWF rest
 
 theorem mem_ctx_leaf_self {f : Field} {rest : Forest} {P : List Bytes} {D : Option (List Bytes)} :
     (f, false, P, D) ∈ fieldCtx P D (.leaf f rest) := by simp [fieldCtx]
@@ -379,10 +384,11 @@ theorem mem_ctx_strct_self {hdr : Field} {anon : Bool} {kids rest : Forest} {P :
     (hdr, true, P, D) ∈ fieldCtx P D (.strct hdr anon kids rest) := by simp [fieldCtx]
 
 theorem mem_ctx_strct_kids {hdr : Field} {anon : Bool} {kids rest : Forest} {P : List Bytes} {D : Option (List Bytes)}
-    {x : Field × Bool × List Bytes × Option (List Bytes)} (hprom : promoted hdr anon = false)
-    (h : x ∈ fieldCtx (P ++ [specName hdr]) (stepD D hdr anon) kids) :
+    {x : Field × Bool × List Bytes × Option (List Bytes)}
+    (h : x ∈ fieldCtx (kidP P hdr anon) (stepD D hdr anon) kids) :
     x ∈ fieldCtx P D (.strct hdr anon kids rest) := by
-  simp [fieldCtx, hprom, h]
+  unfold kidP at h
+  simp [fieldCtx, h]
 
 theorem mem_ctx_strct_rest {hdr : Field} {anon : Bool} {kids rest : Forest} {P : List Bytes} {D : Option (List Bytes)}
     {x : Field × Bool × List Bytes × Option (List Bytes)} (h : x ∈ fieldCtx P D rest) :
@@ -394,7 +400,7 @@ on the focused request -/
 def PresOK (q : NReq) : List Bytes → Forest → List FieldVal → Prop
   | _, .nil, pres => pres = []
   | P, .leaf f rest, pres => ∃ v vs, pres = v :: vs ∧ preFieldS false (focus q P) f = .ok v ∧ PresOK q P rest vs
-  | P, .strct hdr _ kids rest, pres => ∃ a b, pres = a ++ b ∧ PresOK q (P ++ [specName hdr]) kids a ∧ PresOK q P rest b
+  | P, .strct hdr anon kids rest, pres => ∃ a b, pres = a ++ b ∧ PresOK q (kidP P hdr anon) kids a ∧ PresOK q P rest b
 
 theorem presOK_of_preLeaves (q : NReq) (s : Bool) (top : List (Bytes × JVal)) (hj : isJSONReq q = true) (hb : q.r.body = .json top) :
     ∀ (t : Forest) (P : List Bytes) (D : Option (List Bytes)) (pres : List FieldVal), ForestWF t →
@@ -421,12 +427,12 @@ theorem presOK_of_preLeaves (q : NReq) (s : Bool) (top : List (Bytes × JVal)) (
     · rw [← preFieldS_sonic _ _ (class_empty hcl).1]; exact hv.symm
   | strct hdr anon kids rest ihk ihr =>
     intro P D pres hwf hc h
-    obtain ⟨_, _, hprom, hwfk, hwfr⟩ := hwf
+    obtain ⟨_, _, hwfk, hwfr⟩ := hwf
     simp only [preLeaves] at h
     have h' := h.symm
     rw [List.map_eq_append_iff] at h'
     obtain ⟨a, b, rfl, ha, hb'⟩ := h'
-    exact ⟨a, b, rfl, ihk _ _ a hwfk (fun x hx => hc x (mem_ctx_strct_kids hprom hx)) ha.symm,
+    exact ⟨a, b, rfl, ihk _ _ a hwfk (fun x hx => hc x (mem_ctx_strct_kids hx)) ha.symm,
       ihr P D b hwfr (fun x hx => hc x (mem_ctx_strct_rest hx)) hb'.symm⟩
 
 theorem presOK_unset (q : NReq) (hj : isJSONReq q = false) : ∀ (t : Forest) (P : List Bytes),
@@ -476,9 +482,9 @@ theorem preLeaves_sonic (q : NReq) (top : List (Bytes × JVal)) (hj : isJSONReq 
       preLeaf_eq_preFieldS false q P f top hj hb hx, preFieldS_sonic _ _ (class_empty hcl).1]
   | strct hdr anon kids rest ihk ihr =>
     intro P D hwf hc
-    obtain ⟨_, _, hprom, hwfk, hwfr⟩ := hwf
+    obtain ⟨_, _, hwfk, hwfr⟩ := hwf
     simp only [preLeaves]
-    rw [ihk (P ++ [specName hdr]) _ hwfk (fun x hx => hc x (mem_ctx_strct_kids hprom hx)), ihr P D hwfr (fun x hx => hc x (mem_ctx_strct_rest hx))]
+    rw [ihk (kidP P hdr anon) _ hwfk (fun x hx => hc x (mem_ctx_strct_kids hx)), ihr P D hwfr (fun x hx => hc x (mem_ctx_strct_rest hx))]
 
 theorem preBindN_sonic (q : NReq) (t : Forest) (hwf : ForestWF t) (hc : ∀ x ∈ fieldCtx [] (some []) t, nestedClass q x = "") :
     preBindN true q t = preBindN false q t := by
@@ -678,7 +684,7 @@ theorem runN_forest (q : NReq) : ∀ (t : Forest) (pidx : Path) (P : List Bytes)
           simp
   | strct hdr anon kids rest ihk ihr =>
     intro pidx P D i done seg tail more hwf hc hk hp hnd
-    obtain ⟨hwf1, hplain, hprom, hwfk, hwfr⟩ := hwf
+    obtain ⟨hwf1, hplain, hwfk, hwfr⟩ := hwf
     simp only [leafPaths] at hk
     rw [List.map_eq_append_iff] at hk
     obtain ⟨sk, sr, rfl, hkk, hkr⟩ := hk
@@ -692,10 +698,11 @@ theorem runN_forest (q : NReq) : ∀ (t : Forest) (pidx : Path) (P : List Bytes)
     have hrun := struct_run_spec q P hdr pidx i .unset hplain
     have hcomp : compileN pidx P i (.strct hdr anon kids rest) ++ more =
         { parentIdx := pidx, index := i, jparent := P, dec := compileField hdr, isStruct := true } ::
-          (compileN (pidx ++ [i]) (P ++ [newParentName hdr]) 0 kids ++ (compileN pidx P (i + 1) rest ++ more)) := by
-      simp [compileN, keepsParentJSON_eq_promoted, hprom]
+          (compileN (pidx ++ [i]) (kidP P hdr anon) 0 kids ++ (compileN pidx P (i + 1) rest ++ more)) := by
+      simp [compileN, keepsParentJSON_eq_promoted, newParentName_eq, kidP]
     rw [hcomp]
-    simp only [specForest, hprom, Bool.false_eq_true, if_false]
+    simp only [specForest]
+    rw [show (if promoted hdr anon = true then P else P ++ [specName hdr]) = kidP P hdr anon from rfl]
     rw [runN_cons_struct q _ _ _ rfl, hrun]
     cases ho : specStruct hdr (focus q P) with
     | err e => simp [Sim]
@@ -703,12 +710,11 @@ theorem runN_forest (q : NReq) : ∀ (t : Forest) (pidx : Path) (P : List Bytes)
     | ok u =>
       simp only
       have hnd1 : ((done ++ sk ++ (sr ++ tail)).map (·.1)).Nodup := by simpa [List.append_assoc] using hnd
-      have hik := ihk (pidx ++ [i]) (P ++ [specName hdr]) (stepD D hdr anon) 0 done sk (sr ++ tail)
-        (compileN pidx P (i + 1) rest ++ more) hwfk (fun x hx => hc x (mem_ctx_strct_kids hprom hx)) hkk hpa hnd1
-      rw [newParentName_eq]
+      have hik := ihk (pidx ++ [i]) (kidP P hdr anon) (stepD D hdr anon) 0 done sk (sr ++ tail)
+        (compileN pidx P (i + 1) rest ++ more) hwfk (fun x hx => hc x (mem_ctx_strct_kids hx)) hkk hpa hnd1
       have hst : done ++ (sk ++ sr) ++ tail = done ++ sk ++ (sr ++ tail) := by simp
       rw [hst]
-      cases hok : specForest q (P ++ [specName hdr]) kids with
+      cases hok : specForest q (kidP P hdr anon) kids with
       | err e => rw [hok] at hik; simpa [appendOut, Sim] using hik
       | unk => rw [hok] at hik; simpa [appendOut, Sim] using hik
       | fault => rw [hok] at hik; simp [Sim] at hik
@@ -824,7 +830,7 @@ instance decForestWF : (t : Forest) → Decidable (ForestWF t)
     exact @instDecidableAnd _ _ _ (decForestWF rest)
   | .strct hdr _ kids rest => by
     unfold ForestWF
-    exact @instDecidableAnd _ _ _ (@instDecidableAnd _ _ _ (@instDecidableAnd _ _ _ (@instDecidableAnd _ _ (decForestWF kids) (decForestWF rest))))
+    exact @instDecidableAnd _ _ _ (@instDecidableAnd _ _ _ (@instDecidableAnd _ _ (decForestWF kids) (decForestWF rest)))
 
 /-- the class predicates, as booleans (decidable on concrete trees and requests) -/
 def NoClassB (q : NReq) (t : Forest) : Prop :=
